@@ -165,6 +165,12 @@ def run_world(args):
                 x, o = take(2); sets[int(x)].prereleases = TRI[o]
             elif op == "M":
                 a, o = take(2); cells[int(a)].prereleases = TRI[o]
+            elif op == "Mi":
+                # the alias obtained by iterating the set: it must be the very object that was put in
+                h, a, o = take(3)
+                alias = next((s for s in sets[int(h)] if s is cells[int(a)]), None)
+                if alias is None: out.append("!noalias")
+                else: alias.prereleases = TRI[o]
             elif op == "c":
                 x, a, inst, k, t = take(5); out.append(do_contains(sets[int(x)], a, inst, k, t))
             elif op == "in":
@@ -374,9 +380,10 @@ def law_large(args):
     ss = SpecifierSet(",".join(cl))
     items = ["1.0", "0.0", "2.0a1", "9.7", "1.3.1", "50", "100", "1.0.dev1"]
     for pre in (None, True, False):
-        want = [x for x in items if ss.contains(x, prereleases=pre)] if pre is not None else None
+        # a non-empty set has no fall-back: also with no argument filter() is exactly what contains() accepts
+        want = [x for x in items if ss.contains(x, prereleases=pre)] if pre is not None else [x for x in items if ss.contains(x)]
         got = list(ss.filter(items, prereleases=pre)) if pre is not None else list(ss.filter(items))
-        if want is not None and got != want: return "filter of a %d-clause set differs from contains (prereleases=%r): %r vs %r" % (n, pre, got, want)
+        if got != want: return "filter of a %d-clause set differs from contains (prereleases=%r): %r vs %r" % (n, pre, got, want)
     if len(ss) != len(set(cl)) or len(str(ss).split(",")) != len(ss): return "a %d-clause set loses clauses" % n
     if not (SpecifierSet(str(ss)) == ss) or hash(SpecifierSet(str(ss))) != hash(ss): return "str of a %d-clause set does not parse back to an equal set" % n
     return "ok"
